@@ -94,10 +94,12 @@ Definition shrink_each_verdict (G R : list polygon) (rin rout : Z) (p : point) :
 Definition near_any (p : point) (qs : list point) (r : Z) : bool :=
   existsb (fun q => seg_near p q q r) qs.
 
-Definition shrink_union_verdict (G R : list polygon) (outside : list point) (rin rout : Z) (p : point) : Z :=
+(* `B` lists polygons whose edges contain the boundary of the covered region (the operands themselves, or,
+   when an operand carries zero-width slits that are not boundary of the region, the contours it was made of) *)
+Definition shrink_union_verdict (G B R : list polygon) (outside : list point) (rin rout : Z) (p : point) : Z :=
   let inG := covers G p in
   let inR := covers R p in
-  if inG && negb (group_near p G rout) && negb inR then 1
+  if inG && negb (group_near p B rout) && negb inR then 1
   else if (negb inG || near_any p outside rin) && inR then 2
   else let s := wn_sum R p in if (s =? 0) || (s =? 1) then 0 else 3.
 
